@@ -10,7 +10,7 @@ EXPLANATION = ('Effect analysis over the value-flow evaluation of every sampler\
                'R7.3 per-chain seed derivation is total on u64 (no overflow-checked +,-,* on seeds); R7.4 no statics on run paths, generators owned '
                'by value; R7.5 seeded initialisers are pure (seed -> local generator -> draws) and init_det = init_with_seed(.,.,42). '
                'Different-seeds-differ is a statement about the generator, not decided.')
-FLOORS = {'obligations': 78}   # counted on the reference tree; fewer instantiated obligations is reported, never passed silently
+FLOORS = {'obligations': 79}   # counted on the reference tree; fewer instantiated obligations is reported, never passed silently
 TECHNIQUE = 'effect / generator-provenance analysis over the inlined call graph (value-flow events), liveness of draws, THIR arithmetic scan'
 ASSUMPTIONS = ['Gibbs: randomness inside a user Conditional is excluded (no seeding handle), as the property states',
                'rayon indexed collect / thread::scope join preserve chain order (trusted library contract)']
@@ -185,6 +185,19 @@ def run(ctx):
                     why='`seed + i` panics under overflow checks for seeds near u64::MAX; the seeding API must be total on u64')
         else:
             ctx.ok('C07.R7.3', anchor, 'seed-derivation', expected='no overflow-checked u64 arithmetic', found='none', sp=b['sp'], why='seed derivation is total on u64')
+    # the chain-level seeding entry point of NUTS (public API of its own; NUTS::set_seed need not go through it)
+    b = A.get('NUTS.chain_seed')
+    if b is not None:
+        ev = ctx.evaluate(b)
+        anchor = strip_generics(b['path'])
+        try:
+            val = fld(ev.ret_term, 'rng')       # builder style: takes and returns self by value
+        except Exception:
+            val = None
+        others = [s_.kind for s_ in E.rng_sites(ev) if s_.kind != 'seed']
+        ctx.check('C07.R7.2.chain_seed', anchor, 'rng', val is T.app('seed_from_u64', S('seed')) and not others, expected='self.rng = seed_from_u64(seed) for every seed; no other randomness source',
+                  found='%s; other sources: %s' % (show(val) if val is not None else 'self.rng not written', others or 'none'), sp=b['sp'],
+                  why='a seeded NUTS chain must be reproducible for every u64 seed (no sentinel value meaning "random")')
     # ---------------------------------------------------------------- R7.4 statics, ownership
     stat = []
     for b in ctx.facts.bodies:
